@@ -381,7 +381,7 @@ func init() {
 			for _, c := range CallsTo(fn, "corestore.KVStore.Get", "storetypes.KVStore.Get") {
 				keyT = argT(fa, c, 0)
 			}
-			lits := Complits(fn, "types.Redelegation")
+			lits := LiteralAllocs(fa, fn, "types.Redelegation")
 			if keyT == nil || !keyT.IsCall("types.GetRedelegationKey") {
 				r.Undecided(fk, "upsert key", "cannot find the Get(GetRedelegationKey(...)) of the upsert")
 				return
@@ -390,6 +390,13 @@ func init() {
 			fields := map[string]*Term{}
 			if len(lits) > 0 {
 				fields = complitFields(fa, lits[0])
+				// the record local itself may come first (it takes a field update on the merge path and a whole copy of the
+				// literal on the create path): the literal is the local that is given the key attributes
+				for _, l := range lits {
+					if f := complitFields(fa, l); f["DelegatorAddress"] != nil && fields["DelegatorAddress"] == nil {
+						fields = f
+					}
+				}
 			} else {
 				for _, b := range fn.Blocks {
 					for _, in := range b.Instrs {
